@@ -47,6 +47,9 @@ func genC01(r *Rand, tier string, i int) *h.Scenario {
 	p.MaxBars = 6
 	p.PQueueAfter = 0.12 // successors created before their predecessor finishes (late ones are finding F4b, owned by C17)
 	p.PTightTerm = 0.35  // more rows than lines: bars that have no line still finish and are waited for
+	if r.Bool(0.04) {
+		p.MinBars, p.MaxBars = 0, 0 // "any number of bars": none at all
+	}
 	if tier == "thorough" {
 		p.MaxBars = 8
 		p.MaxClients = 4
